@@ -192,7 +192,7 @@ CORPUS: list[tuple[str, dict, list[dict]]] = [
 def corr_binary(ck: Ck) -> None:
     """Model export vs export_binary (byte-exact) and model parse of the implementation's bytes vs parse_bin."""
     from srctools import dmx
-    n = ck.budget(240, 3000)
+    n = ck.budget(180, 3000)
     cases = []
     corpus = [(s, m) for _, s, ms in CORPUS for m in ms if m['fmt'] == 'binary']
     for i in range(n):
@@ -431,12 +431,14 @@ Definition gattr_eqb (a b : gattr) := str_eqb (ga_name a) (ga_name b) && str_eqb
 Definition gelem_eqb (a b : gelem) := str_eqb (ge_type a) (ge_type b) && str_eqb (ge_id a) (ge_id b) && str_eqb (ge_name a) (ge_name b) && leqb gattr_eqb (ge_attrs a) (ge_attrs b).
 Definition ogdoc_eqb (a b : option gdoc) := match a, b with Some x, Some y => leqb gelem_eqb x y | None, None => true | _, _ => false end.
 (* per case: 0 ok, 1 model text differs from export_kv2(flat=True), 2 model parse of that text differs from parse_kv2,
-   3 the document is outside doc_ok (generator bug), 4 the linked graph (fix-up pass) differs from the parsed object graph *)
-Definition chk2 (c : kdoc * str * option kdoc * option gdoc) : N := let '(d, text, back, gback) := c in
+   3 the document is outside doc_ok (generator bug), 4 the linked graph (fix-up pass) differs from the parsed object graph,
+   5 model parse of the re-formatted text (other line ends / indentation, comments, trailing commas) differs from parse_kv2 *)
+Definition chk2 (c : kdoc * str * option kdoc * option gdoc * str * option kdoc) : N := let '(d, text, back, gback, text2, back2) := c in
   if negb (doc_ok gen_tables gen_vtnames d) then 3
   else if str_eqb (gen_render_doc d) text
        then (if okdoc_eqb (gen_parse_text text) back
-             then (if ogdoc_eqb (match gen_parse_text text with Some x => link x | None => None end) gback then 0 else 4)
+             then (if ogdoc_eqb (match gen_parse_text text with Some x => link x | None => None end) gback
+                   then (if okdoc_eqb (gen_parse_text text2) back2 then 0 else 5) else 4)
              else 2)
        else 1.
 Fixpoint bad_idx {A} (f : A -> N) (n : N) (l : list A) : list N := match l with [] => [] | x :: r => (if f x =? 0 then [] else [n * 10 + f x]) ++ bad_idx f (n + 1) r end.
@@ -562,12 +564,31 @@ def corr_keyword_predicate(ck: Ck) -> None:
         ck.tie_broken.append('correspondence KV2 keyword predicate')
 
 
+def reformat_kv2(rng, text: str) -> str:
+    """The same KeyValues2 document in another layout: LF or CR LF per line, other indentation, blank lines, // comment
+    lines, a comma after the last array item.  Safe line by line: escape_text leaves no raw line break inside quotes."""
+    lines = text.split('\r\n')
+    out = []
+    for i, ln in enumerate(lines):
+        body = ln.lstrip('\t')
+        depth = len(ln) - len(body)
+        if body:
+            body = rng.choice(['\t' * depth, ' ' * depth, '', '  \t' * depth]) + body
+        nxt = lines[i + 1].lstrip('\t') if i + 1 < len(lines) else ''
+        if nxt == ']' and body.rstrip().endswith(('"', '}')) and rng.random() < 0.5:
+            body += ','
+        out.append(body)
+        if rng.random() < 0.12:
+            out.append(rng.choice(['', '   ', '// a comment "with" { brackets ] and \\ backslash', '\t//', '//"id" "elementid" "x"']))
+    return ''.join(ln + rng.choice(['\n', '\r\n', '\n']) for ln in out)
+
+
 def corr_kv2(ck: Ck) -> None:
     """Fmt/DmxKv2.v writer and parser (on the regenerated tokenizer tables) vs export_kv2(flat=True) and parse_kv2:
     the model's text equals the exported text after the header line, and the model's parse of that text equals the
     string-level document of what Element.parse returns."""
     from srctools import dmx
-    n = ck.budget(40, 400)
+    n = ck.budget(24, 400)
     cases = []
     corpus = [s for _, s, ms in CORPUS if any(m['fmt'] == 'kv2' for m in ms)]
     for i in range(n):
@@ -593,7 +614,14 @@ def corr_kv2(ck: Ck) -> None:
         except Exception:
             back = gback = 'None'
             ck.count('corr_kv2_impl_parse_error')
-        cases.append((spec, uni, f'({coq_kdoc(d)}, {_cps(text)}, {back}, {gback})'))
+        text2 = reformat_kv2(ck.rng, text)
+        try:
+            got2, _, _ = dmx.Element.parse(io.BytesIO(head + b'\r\n' + text2.encode('utf8' if uni != 'ascii' else 'ascii')), unicode=(uni == 'silent'))
+            back2 = f'(Some {coq_kdoc(kdoc_of(got2))})'
+        except Exception:
+            back2 = 'None'
+            ck.count('corr_kv2_impl_reformat_parse_error')
+        cases.append((spec, uni, f'({coq_kdoc(d)}, {_cps(text)}, {back}, {gback}, {_cps(text2)}, {back2})'))
         ck.count('corr_kv2_cases')
         ck.hist('corr_kv2_text_chars', len(text) // 500 * 500)
         if len(d) > 1 or d[0][3]:
@@ -617,7 +645,8 @@ def corr_kv2(ck: Ck) -> None:
         ck.extra['kv2_disagreement'] = {'spec': cases[i][0], 'unicode': cases[i][1],
                                         'kind': {1: 'model text differs from export_kv2', 2: 'model parse differs from parse_kv2',
                                                  3: 'generated document outside doc_ok',
-                                                 4: 'model link (fix-up pass) differs from the parsed object graph'}.get(code, code)}
+                                                 4: 'model link (fix-up pass) differs from the parsed object graph',
+                                                 5: 'model parse of the re-formatted text differs from parse_kv2'}.get(code, code)}
 
 
 
@@ -640,10 +669,11 @@ with nitem_eqb (a b : nitem) {struct a} : bool :=
                 | NInline x, NInline y => nelem_eqb x y | _, _ => false end.
 Definition ondoc_eqb (a b : option ndoc) := match a, b with Some x, Some y => leqb nelem_eqb x y | None, None => true | _, _ => false end.
 (* per case: 0 ok, 1 model text differs from export_kv2(flat=False), 2 model parse differs from parse_kv2, 3 outside ndoc_ok *)
-Definition chk3 (c : ndoc * str * option ndoc) : N := let '(d, text, back) := c in
+Definition chk3 (c : ndoc * str * option ndoc * str * option ndoc) : N := let '(d, text, back, text2, back2) := c in
   if negb (ndoc_ok gen_tables gen_fold gen_vtnames d) then 3
   else if str_eqb (rendern_doc gen_tables d) text
-       then (if ondoc_eqb (parsen_text gen_tables gen_kv2_opts gen_fold gen_vtnames text) back then 0 else 2)
+       then (if ondoc_eqb (parsen_text gen_tables gen_kv2_opts gen_fold gen_vtnames text) back
+             then (if ondoc_eqb (parsen_text gen_tables gen_kv2_opts gen_fold gen_vtnames text2) back2 then 0 else 5) else 2)
        else 1.
 Fixpoint bad_idx {A} (f : A -> N) (n : N) (l : list A) : list N := match l with [] => [] | x :: r => (if f x =? 0 then [] else [n * 10 + f x]) ++ bad_idx f (n + 1) r end.
 """
@@ -719,7 +749,7 @@ def corr_kv2_nested(ck: Ck) -> None:
     """Fmt/DmxKv2Nested.v writer and parser vs export_kv2(flat=False, cull_uuid) and parse_kv2: exact text, and the
     parsed tree of blocks (inline elements where they were written)."""
     from srctools import dmx
-    n = ck.budget(40, 400)
+    n = ck.budget(24, 400)
     cases = []
     corpus = [s for _, s, ms in CORPUS if any(m['fmt'] == 'kv2' for m in ms)]
     for i in range(n):
@@ -738,6 +768,7 @@ def corr_kv2_nested(ck: Ck) -> None:
             ck.count('corr_kv2n_export_error')
             continue
         data = buf.getvalue()
+        head = data.partition(b'\r\n')[0]
         text = data.partition(b'\r\n')[2].decode('utf8' if uni != 'ascii' else 'ascii')
         d = ntree_of(elems[0], cull)
         try:
@@ -746,7 +777,15 @@ def corr_kv2_nested(ck: Ck) -> None:
         except Exception:
             back = 'None'
             ck.count('corr_kv2n_impl_parse_error')
-        cases.append((spec, {'unicode': uni, 'cull_uuid': cull}, f'({coq_list(coq_nelem(e) for e in d)}, {_cps(text)}, {back})'))
+        text2 = reformat_kv2(ck.rng, text)
+        try:
+            got2, _, _ = dmx.Element.parse(io.BytesIO(head + b'\r\n' + text2.encode('utf8' if uni != 'ascii' else 'ascii')), unicode=(uni == 'silent'))
+            back2 = f'(Some {coq_list(coq_nelem(e) for e in ntree_of(got2, cull))})'
+        except Exception:
+            back2 = 'None'
+            ck.count('corr_kv2n_impl_reformat_parse_error')
+        cases.append((spec, {'unicode': uni, 'cull_uuid': cull},
+                      f'({coq_list(coq_nelem(e) for e in d)}, {_cps(text)}, {back}, {_cps(text2)}, {back2})'))
         ck.count('corr_kv2n_cases')
         depth = text.count('\t\t\t\t')
         ck.hist('corr_kv2n_has_depth3', bool(depth))
@@ -770,7 +809,8 @@ def corr_kv2_nested(ck: Ck) -> None:
         ck.tie_broken.append('correspondence KV2 nested text (Fmt/DmxKv2Nested.v vs export_kv2/parse_kv2)')
         ck.extra['kv2_nested_disagreement'] = {'spec': cases[i][0], 'mode': cases[i][1],
                                                'kind': {1: 'model text differs from export_kv2', 2: 'model parse differs from parse_kv2',
-                                                        3: 'generated document outside ndoc_ok'}.get(code, code)}
+                                                        3: 'generated document outside ndoc_ok',
+                                                        5: 'model parse of the re-formatted text differs from parse_kv2'}.get(code, code)}
 
 
 
